@@ -246,6 +246,46 @@ Definition scopes_for_fixed (U : universe) (path : list name) : list scope :=
 Definition go_resolve_fixed (U : universe) (path : list name) (nm : name) (onlyTypes : bool) : gres :=
   resolve U nm onlyTypes (scopes_for_fixed U path).
 
+(* ---- the same repair in the form proposed as a patch: the scope function takes a flag
+   skipNonTypes (= onlyTypes && firstName == name) and the file scope itself moves on to the next
+   package level when a match is not a type, remembering the first such match ---- *)
+Fixpoint file_scope_loop_skip (U : universe) (prefixes : list name) (firstName fullName : name)
+         (skipNonTypes : bool) (bestGuess : gres) : gres :=
+  match prefixes with
+  | [] => bestGuess
+  | p :: r =>
+    match file_scope_step U p firstName fullName with
+    | GNil => file_scope_loop_skip U r firstName fullName skipNonTypes bestGuess
+    | d =>
+      if negb skipNonTypes || is_type_g d then d
+      else file_scope_loop_skip U r firstName fullName skipNonTypes
+                                (match bestGuess with GNil => d | _ => bestGuess end)
+    end
+  end.
+
+Definition run_scope_skip (U : universe) (sc : scope) (firstName fullName : name) (skipNonTypes : bool) : gres :=
+  match sc with
+  | ScFile => file_scope_loop_skip U (create_prefix_list (f_pkg (u_self U))) firstName fullName skipNonTypes GNil
+  | _ => run_scope U sc firstName fullName
+  end.
+
+Fixpoint resolve_loop_skip (U : universe) (firstName nm : name) (onlyTypes : bool)
+         (scopes_inner_first : list scope) (best : gres) : gres :=
+  match scopes_inner_first with
+  | [] => best
+  | sc :: r =>
+    match run_scope_skip U sc firstName nm (onlyTypes && name_eqb firstName nm) with
+    | GNil => resolve_loop_skip U firstName nm onlyTypes r best
+    | d =>
+      if negb onlyTypes || is_type_g d || negb (name_eqb firstName nm) then d
+      else resolve_loop_skip U firstName nm onlyTypes r (match best with GNil => d | _ => best end)
+    end
+  end.
+
+Definition go_resolve_skip (U : universe) (path : list name) (nm : name) (onlyTypes : bool) : gres :=
+  if starts_with_dot nm then resolve_element U (tl nm)
+  else resolve_loop_skip U (first_name nm) nm onlyTypes (rev (scopes_for U path)) GNil.
+
 (* ---- correspondence ---- *)
 From PV Require Import Common.Corr.
 
